@@ -1,35 +1,546 @@
 package main
 
 import (
+	"crypto/sha256"
+	"encoding/json"
 	"fmt"
+	"io/ioutil"
+	"os"
+	"path/filepath"
+	"sort"
+	"strconv"
+	"strings"
 	"time"
-
-	sdk "github.com/cosmos/cosmos-sdk/types"
-	servicetypes "github.com/irismod/service/types"
 )
 
-func main() {
-	r := NewRig(RigConfig{})
-	o1 := sdk.AccAddress([]byte("owner1______________"))
-	c1 := sdk.AccAddress([]byte("consumer1___________"))
-	p1 := sdk.AccAddress([]byte("provider1___________"))
-	ps := ParamSet{Name: "p", Tax: "0.1", Slash: "0.5", MaxTimeout: 3, MinDeposit: 10, Multiple: 2, Arbitration: time.Second, Complaint: time.Second}
-	s := r.Genesis(ps, []Funding{{o1, 100}, {c1, 6}}, []sdk.AccAddress{p1})
-	fmt.Println(len(s.Stores[0]), len(s.Stores[1]), len(s.Stores[2]), len(s.Stores[3]))
-	t0 := time.Now()
-	w := r.Restore(s)
-	res := w.DeliverMsg(servicetypes.NewMsgDefineService("a", "", nil, o1, "", `{"input":{"type":"object"},"output":{"type":"object"}}`), nil, 0)
-	fmt.Println(res.Outcome(), res.ErrString())
-	res = w.DeliverMsg(servicetypes.NewMsgBindService("a", p1, sdk.NewCoins(sdk.NewInt64Coin(denom, 10)), `{"price":"2stake"}`, 1, "{}", o1), nil, 0)
-	fmt.Println(res.Outcome(), res.ErrString())
-	th := make([]byte, 32)
-	res = w.DeliverMsg(servicetypes.NewMsgCallService("a", []sdk.AccAddress{p1}, c1, `{"header":{},"body":{}}`, sdk.NewCoins(sdk.NewInt64Coin(denom, 5)), 1, false, false, 0, 0), th, 0)
-	fmt.Println(res.Outcome(), res.ErrString())
-	res = w.EndBlock()
-	fmt.Println(res.Outcome(), res.ErrString(), res.Events)
-	st := w.Flush()
-	fmt.Println(len(st[3]), time.Since(t0))
-	for _, kv := range st[3] {
-		fmt.Printf("%x\n", kv.K)
+// RunSpec is one exploration: a closed scenario, the oracles evaluated on it and the history variables tracked.
+type RunSpec struct {
+	Name     string
+	Sc       *Scenario
+	Oracles  []Oracle
+	Mon      MonFlags
+	DetCheck bool
+	Conform  int // number of explored paths to re-execute on the full SimApp (0 = none)
+	Post     func(e *Engine, ev *RunEvidence) []Found // optional extra pass over the explored states (export points, queries)
+	KeepAll  bool
+}
+
+// CheckSpec is everything that decides one property.
+type CheckSpec struct {
+	Prop  string
+	Runs  func(tier string) []RunSpec
+	Pure  func(tier string) (*PureEvidence, []Found) // exhaustive grids over pure functions
+	Notes []string
+}
+
+type RunEvidence struct {
+	Run         string           `json:"run"`
+	Scenario    string           `json:"scenario"`
+	Params      string           `json:"params"`
+	FlipIDs     bool             `json:"flip_ids"`
+	Templates   []string         `json:"templates"`
+	Depth       int              `json:"depth_bound"`
+	MaxBlocks   int              `json:"block_bound"`
+	MaxMsgs     int              `json:"msgs_per_block_bound"`
+	Completed   int              `json:"completed_depth"`
+	Exhaustive  bool             `json:"exhaustive_within_bounds"`
+	States      int64            `json:"states"`
+	Transitions int64            `json:"transitions"`
+	SelfLoops   int64            `json:"self_loops"`
+	Levels      []int            `json:"frontier_sizes"`
+	Outcomes    map[string]int64 `json:"outcomes_by_action_kind"`
+	Witnesses   map[string]int64 `json:"witnesses"`
+	Conformed   int              `json:"paths_replayed_on_full_simapp"`
+	ConformSteps int             `json:"blocks_compared_on_full_simapp"`
+	Extra       map[string]int64 `json:"extra,omitempty"`
+	WallS       float64          `json:"wall_s"`
+}
+
+type PureEvidence struct {
+	Evaluations int64            `json:"evaluations"`
+	Distinct    int64            `json:"distinct_nontrivial"`
+	Rule        string           `json:"rule"`
+	Samples     []interface{}    `json:"samples"`
+	Counters    map[string]int64 `json:"counters"`
+}
+
+var checks = map[string]*CheckSpec{}
+
+func register(c *CheckSpec) { checks[c.Prop] = c }
+
+func verifDir() string {
+	if d := os.Getenv("VERIF_DIR"); d != "" {
+		return d
 	}
+	exe, err := os.Executable()
+	if err == nil {
+		d := filepath.Dir(filepath.Dir(exe))
+		if _, err := os.Stat(filepath.Join(d, "properties.jsonl")); err == nil {
+			return d
+		}
+	}
+	return "/verif"
+}
+
+type KnownFinding struct {
+	Property  string `json:"property"`
+	Signature string `json:"signature"` // exact signature, or a prefix ending in '*'
+	What      string `json:"what"`
+}
+
+type FixedEntry struct {
+	Property string `json:"property"`
+	Commit   string `json:"commit"`
+	What     string `json:"what"`
+}
+
+type KnownFile struct {
+	Findings []KnownFinding `json:"findings"`
+	Fixed    []FixedEntry   `json:"fixed"`
+}
+
+func loadKnown() KnownFile {
+	var k KnownFile
+	b, err := ioutil.ReadFile(filepath.Join(verifDir(), "known_findings.json"))
+	if err != nil {
+		return k
+	}
+	if err := json.Unmarshal(b, &k); err != nil {
+		fmt.Fprintln(os.Stderr, "known_findings.json unreadable:", err)
+		os.Exit(2)
+	}
+	return k
+}
+
+func (k KnownFile) match(prop, sig string) *KnownFinding {
+	for i := range k.Findings {
+		f := &k.Findings[i]
+		if f.Property != prop {
+			continue
+		}
+		if f.Signature == sig {
+			return f
+		}
+		if strings.HasSuffix(f.Signature, "*") && strings.HasPrefix(sig, strings.TrimSuffix(f.Signature, "*")) {
+			return f
+		}
+	}
+	return nil
+}
+
+func main() {
+	if len(os.Args) < 2 {
+		usage()
+	}
+	switch os.Args[1] {
+	case "check":
+		if len(os.Args) < 4 {
+			usage()
+		}
+		os.Exit(runCheck(os.Args[2], os.Args[3]))
+	case "replay":
+		if len(os.Args) < 3 {
+			usage()
+		}
+		os.Exit(runReplay(os.Args[2], true))
+	case "list":
+		var ids []string
+		for id := range checks {
+			ids = append(ids, id)
+		}
+		sort.Strings(ids)
+		fmt.Println(strings.Join(ids, " "))
+	default:
+		usage()
+	}
+}
+
+func usage() {
+	fmt.Fprintln(os.Stderr, "usage: svcmc check <property> quick|thorough | svcmc replay <file> | svcmc list")
+	os.Exit(2)
+}
+
+func budget(tier string) time.Duration {
+	if s := os.Getenv("VERIF_BUDGET_S"); s != "" {
+		if n, err := strconv.Atoi(s); err == nil {
+			return time.Duration(n) * time.Second
+		}
+	}
+	if tier == "thorough" {
+		return 40 * time.Minute
+	}
+	return 150 * time.Second
+}
+
+type ReplayFile struct {
+	Property  string   `json:"property"`
+	Tier      string   `json:"tier"`
+	Run       string   `json:"run"`
+	Signature string   `json:"signature"`
+	Clause    string   `json:"clause"`
+	Detail    string   `json:"detail"`
+	Trace     []string `json:"trace"`
+	Pure      bool     `json:"pure,omitempty"`
+}
+
+func runCheck(prop, tier string) int {
+	spec, ok := checks[prop]
+	if !ok {
+		fmt.Fprintf(os.Stderr, "no check for %s\n", prop)
+		return 2
+	}
+	if tier != "quick" && tier != "thorough" {
+		usage()
+	}
+	seed := 0
+	if s := os.Getenv("VERIF_SEED"); s != "" {
+		seed, _ = strconv.Atoi(s)
+	}
+	start := time.Now()
+	deadline := start.Add(budget(tier))
+	known := loadKnown()
+
+	var runsEv []RunEvidence
+	var samples []interface{}
+	var allFound []struct {
+		run string
+		f   Found
+		pure bool
+	}
+	var totStates, totTrans, totConf int64
+	exhaustive := true
+	hard := []string{}
+
+	var runs []RunSpec
+	if spec.Runs != nil {
+		runs = spec.Runs(tier)
+	}
+	for ri, rs := range runs {
+		t0 := time.Now()
+		// split the remaining budget evenly over the remaining runs
+		remaining := time.Until(deadline)
+		share := remaining / time.Duration(len(runs)-ri)
+		e := &Engine{Sc: rs.Sc, Oracles: rs.Oracles, MonFlags: rs.Mon, DetCheck: rs.DetCheck, KeepAll: rs.KeepAll || rs.Post != nil,
+			Deadline: time.Now().Add(share)}
+		if err := e.Run(); err != nil {
+			fmt.Fprintf(os.Stderr, "run %s: %v\n", rs.Name, err)
+			return 2
+		}
+		ev := RunEvidence{Run: rs.Name, Scenario: rs.Sc.Name, Params: rs.Sc.Params.Name, FlipIDs: rs.Sc.FlipIDs,
+			Depth: rs.Sc.Depth, MaxBlocks: rs.Sc.MaxBlocks, MaxMsgs: rs.Sc.MaxMsgs,
+			Completed: e.Completed, Exhaustive: e.Exhaustive, States: e.States, Transitions: e.Transitions, SelfLoops: e.SelfLoops,
+			Levels: e.LevelSizes, Outcomes: e.Outcomes, Witnesses: e.Wit}
+		for _, t := range rs.Sc.Templates {
+			ev.Templates = append(ev.Templates, t.Name)
+		}
+		for _, f := range e.Found {
+			allFound = append(allFound, struct {
+				run string
+				f   Found
+				pure bool
+			}{rs.Name, *f, false})
+		}
+		if rs.Post != nil {
+			for _, f := range rs.Post(e, &ev) {
+				allFound = append(allFound, struct {
+					run string
+					f   Found
+					pure bool
+				}{rs.Name, f, false})
+			}
+		}
+		if rs.Conform > 0 {
+			n, steps, errs := conformance(e, rs.Conform)
+			ev.Conformed, ev.ConformSteps = n, steps
+			totConf += int64(n)
+			for _, he := range errs {
+				hard = append(hard, "conformance: "+he)
+			}
+		}
+		hard = append(hard, e.Hard...)
+		ev.WallS = time.Since(t0).Seconds()
+		runsEv = append(runsEv, ev)
+		totStates += e.States
+		totTrans += e.Transitions
+		if !e.Exhaustive {
+			exhaustive = false
+		}
+		for _, tr := range e.SampleTraces(2) {
+			samples = append(samples, map[string]interface{}{"run": rs.Name, "trace": tr})
+		}
+		fmt.Printf("run %-28s states=%d transitions=%d depth=%d/%d exhaustive=%v wall=%.1fs\n", rs.Name, e.States, e.Transitions, e.Completed, rs.Sc.Depth, e.Exhaustive, ev.WallS)
+	}
+
+	var pureEv *PureEvidence
+	if spec.Pure != nil {
+		pe, found := spec.Pure(tier)
+		pureEv = pe
+		for _, f := range found {
+			allFound = append(allFound, struct {
+				run string
+				f   Found
+				pure bool
+			}{"pure", f, true})
+		}
+		for _, s := range pe.Samples {
+			if len(samples) < 12 {
+				samples = append(samples, s)
+			}
+		}
+		fmt.Printf("pure grid: evaluations=%d distinct=%d\n", pe.Evaluations, pe.Distinct)
+	}
+
+	// classify
+	sort.Slice(allFound, func(i, j int) bool { return allFound[i].f.Sig < allFound[j].f.Sig })
+	nviol := 0
+	knownSeen := map[string]bool{}
+	exit := 0
+	outDir := filepath.Join(verifDir(), "out", "violations")
+	for _, af := range allFound {
+		if af.f.Prop != prop {
+			continue // oracles of other properties never run in this check; defensive
+		}
+		if kf := known.match(prop, af.f.Sig); kf != nil {
+			if !knownSeen[kf.Signature] {
+				knownSeen[kf.Signature] = true
+				fmt.Printf("KNOWN-FINDING: property=%s %s [signature %s, %d occurrences, e.g. %s]\n", prop, kf.What, af.f.Sig, af.f.Count, strings.Join(af.f.Trace, " ; "))
+			}
+			continue
+		}
+		// confirm by replaying the trace from the root without the explorer
+		rf := ReplayFile{Property: prop, Tier: tier, Run: af.run, Signature: af.f.Sig, Clause: af.f.Clause, Detail: af.f.Detail, Trace: af.f.Trace, Pure: af.pure}
+		os.MkdirAll(outDir, 0o755)
+		h := sha256.Sum256([]byte(af.f.Sig + af.run))
+		path := filepath.Join(outDir, fmt.Sprintf("%s-%x.json", prop, h[:6]))
+		b, _ := json.MarshalIndent(rf, "", " ")
+		ioutil.WriteFile(path, b, 0o644)
+		if !af.pure {
+			okc := true
+			for i := 0; i < 5; i++ {
+				if runReplay(path, false) != 1 {
+					okc = false
+					break
+				}
+			}
+			if !okc {
+				hard = append(hard, fmt.Sprintf("violation %s did not reproduce on replay (nondeterminism in harness?)", af.f.Sig))
+				continue
+			}
+		}
+		nviol++
+		exit = 1
+		fmt.Printf("VIOLATION property=%s replay=%s\n", prop, path)
+		fmt.Printf("  signature: %s\n  detail: %s\n  trace: %s\n", af.f.Sig, af.f.Detail, strings.Join(af.f.Trace, " ; "))
+	}
+
+	// evidence
+	cov := map[string]interface{}{
+		"states":                        totStates,
+		"transitions":                   totTrans,
+		"traces_validated_against_impl": totConf,
+		"samples":                       samples,
+		"exhaustive":                    exhaustive,
+		"runs":                          runsEv,
+		"explanation":                   "explicit-state BFS; every transition executes the real handler / EndBlocker on real SDK keepers; see DESIGN.md",
+	}
+	if totStates == 0 {
+		delete(cov, "states")
+		delete(cov, "transitions")
+		delete(cov, "traces_validated_against_impl")
+	}
+	if pureEv != nil {
+		cov["evaluations"] = pureEv.Evaluations
+		cov["distinct_nontrivial"] = pureEv.Distinct
+		cov["rule"] = pureEv.Rule
+		cov["pure_counters"] = pureEv.Counters
+	} else {
+		// distinct non-trivial cases = distinct states reached by at least one non-self-loop transition
+		cov["evaluations"] = totTrans
+		cov["distinct_nontrivial"] = totStates
+		cov["rule"] = "cases are (state, action) pairs enumerated breadth-first up to the stated bounds; distinct = distinct full-state hashes (complete KV dump + height/time + monitor)"
+	}
+	if len(samples) == 0 {
+		cov["samples"] = []interface{}{"(no samples)"}
+	}
+	evd := map[string]interface{}{
+		"property_id": prop,
+		"tier":        tier,
+		"seed":        seed,
+		"level":       "model_checking",
+		"coverage":    cov,
+		"assumptions": append([]string{
+			"SUT closed as in DESIGN 3.1: real auth/bank/params/service keepers over an in-memory KV base layer with baseapp's cache-wrapping discipline; prices in the base denomination only (MockTokenKeeper)",
+			"bounds are those listed per run; nothing is claimed beyond them",
+		}, spec.Notes...),
+		"wall_s":     time.Since(start).Seconds(),
+		"violations": nviol,
+		"hard_errors": hard,
+	}
+	os.MkdirAll(filepath.Join(verifDir(), "evidence"), 0o755)
+	b, _ := json.MarshalIndent(evd, "", " ")
+	if err := ioutil.WriteFile(filepath.Join(verifDir(), "evidence", prop+".json"), b, 0o644); err != nil {
+		fmt.Fprintln(os.Stderr, err)
+		return 2
+	}
+	if len(hard) > 0 {
+		for _, h := range hard {
+			fmt.Fprintln(os.Stderr, "HARD ERROR:", h)
+		}
+		return 3
+	}
+	fmt.Printf("%s %s: states=%d transitions=%d violations=%d known=%d exhaustive=%v wall=%.1fs\n", prop, tier, totStates, totTrans, nviol, len(knownSeen), exhaustive, time.Since(start).Seconds())
+	return exit
+}
+
+// runReplay re-executes a recorded trace without the explorer and evaluates the property's oracles on every
+// step. Returns 1 if the recorded signature is reproduced, 0 if not.
+func runReplay(path string, verbose bool) int {
+	b, err := ioutil.ReadFile(path)
+	if err != nil {
+		fmt.Fprintln(os.Stderr, err)
+		return 2
+	}
+	var rf ReplayFile
+	if err := json.Unmarshal(b, &rf); err != nil {
+		fmt.Fprintln(os.Stderr, err)
+		return 2
+	}
+	spec, ok := checks[rf.Property]
+	if !ok {
+		return 2
+	}
+	if rf.Pure {
+		_, found := spec.Pure(rf.Tier)
+		for _, f := range found {
+			if f.Sig == rf.Signature {
+				if verbose {
+					fmt.Printf("reproduced: %s\n  %s\n", f.Sig, f.Detail)
+				}
+				return 1
+			}
+		}
+		return 0
+	}
+	var rs *RunSpec
+	for _, r := range spec.Runs(rf.Tier) {
+		if r.Name == rf.Run {
+			rr := r
+			rs = &rr
+		}
+	}
+	if rs == nil {
+		fmt.Fprintf(os.Stderr, "run %s not found\n", rf.Run)
+		return 2
+	}
+	// two independent replays must agree exactly
+	sigs1, log1, err1 := replayOnce(rs, rf.Trace)
+	sigs2, log2, err2 := replayOnce(rs, rf.Trace)
+	if err1 != nil || err2 != nil {
+		fmt.Fprintln(os.Stderr, "replay diverged:", err1, err2)
+		return 2
+	}
+	if strings.Join(log1, "\n") != strings.Join(log2, "\n") {
+		fmt.Fprintln(os.Stderr, "replay nondeterministic")
+		return 2
+	}
+	_ = sigs2
+	if verbose {
+		for _, l := range log1 {
+			fmt.Println(l)
+		}
+	}
+	for _, s := range sigs1 {
+		if s == rf.Signature {
+			if verbose {
+				fmt.Printf("reproduced: %s\n", s)
+			}
+			return 1
+		}
+	}
+	if verbose {
+		fmt.Println("not reproduced")
+	}
+	return 0
+}
+
+func replayOnce(rs *RunSpec, trace []string) (sigs []string, log []string, err error) {
+	e := &Engine{Sc: rs.Sc, Oracles: rs.Oracles, MonFlags: rs.Mon, DetCheck: rs.DetCheck}
+	s, err := e.Init()
+	if err != nil {
+		return nil, nil, err
+	}
+	x := &OCtx{Sc: e.Sc, Rig: e.rig, wit: map[string]int64{}, outc: map[string]int64{}}
+	mon := NewMon()
+	s.Mon = mon.Bytes()
+	v := e.rig.Decode(s)
+	for _, o := range e.Oracles {
+		for _, vi := range o.Invariant(x, v, mon) {
+			sigs = append(sigs, vi.Sig)
+		}
+	}
+	for i, name := range trace {
+		var act *Action
+		for _, a := range e.Sc.Enabled(v) {
+			if a.Name == name {
+				aa := a
+				act = &aa
+				break
+			}
+		}
+		if act == nil {
+			return nil, nil, fmt.Errorf("step %d: action %q not enabled", i, name)
+		}
+		post, res := Exec(e.rig, e.Sc, s, *act)
+		pv := e.rig.Decode(post)
+		pm := mon.Update(e.MonFlags, e.Sc, v, *act, res, pv)
+		post.Mon = pm.Bytes()
+		log = append(log, fmt.Sprintf("step %2d h=%d %-40s -> %s %s", i, s.Height, name, res.Outcome(), res.ErrString()))
+		log = append(log, diffStates(s, post)...)
+		t := &Trans{Pre: v, Act: *act, Res: res, Post: pv, PreMon: mon, PostMon: pm}
+		for _, o := range e.Oracles {
+			for _, vi := range o.Step(x, t) {
+				sigs = append(sigs, vi.Sig)
+				log = append(log, "    !! "+vi.Sig+" :: "+vi.Detail)
+			}
+			for _, vi := range o.Invariant(x, pv, pm) {
+				vi.Sig = invSig(vi.Sig, act.Kind)
+				sigs = append(sigs, vi.Sig)
+				log = append(log, "    !! "+vi.Sig+" :: "+vi.Detail)
+			}
+		}
+		s, v, mon = post, pv, pm
+	}
+	return sigs, log, nil
+}
+
+func invSig(sig, kind string) string {
+	return strings.Replace(sig, "|state|", "|"+kind+"|", 1)
+}
+
+func diffStates(a, b *State) []string {
+	var out []string
+	for i := 0; i < nStores; i++ {
+		if i == stAuth || i == stParams {
+			continue
+		}
+		am := map[string][]byte{}
+		for _, kv := range a.Stores[i] {
+			am[string(kv.K)] = kv.V
+		}
+		bm := map[string][]byte{}
+		for _, kv := range b.Stores[i] {
+			bm[string(kv.K)] = kv.V
+			if old, ok := am[string(kv.K)]; !ok {
+				out = append(out, fmt.Sprintf("      + %s %x = %x", storeNames[i], kv.K, kv.V))
+			} else if string(old) != string(kv.V) {
+				out = append(out, fmt.Sprintf("      ~ %s %x : %x -> %x", storeNames[i], kv.K, old, kv.V))
+			}
+		}
+		for _, kv := range a.Stores[i] {
+			if _, ok := bm[string(kv.K)]; !ok {
+				out = append(out, fmt.Sprintf("      - %s %x", storeNames[i], kv.K))
+			}
+		}
+	}
+	return out
 }
